@@ -38,7 +38,9 @@ func pick(t *rapid.T, label string, n int) int { return rapid.IntRange(0, n-1).D
 
 // rare is true with a probability of roughly 1/(2n): rapid's integer draws favour small values and the bounds,
 // so the rare alternative is a value in the upper middle of the range.
-func rare(t *rapid.T, label string, n int) bool { return rapid.IntRange(0, n-1).Draw(t, label) == (2*n)/3 }
+func rare(t *rapid.T, label string, n int) bool {
+	return rapid.IntRange(0, n-1).Draw(t, label) == (2*n)/3
+}
 
 // abandon is thrown (and recovered at the top of the case) to leave a world
 // after a recovered panic of the code under test.
@@ -108,6 +110,9 @@ func huge(t *rapid.T, label string) *big.Int {
 	}
 }
 
+// longSeed is the message long-session VRF proofs are checked against on the state in use (set by genHostileTx).
+var longSeed []byte
+
 // otherPayload returns a well-formed attachment of some (usually different) tx type.
 func otherPayload(t *rapid.T, w *sim.World, sender *sim.Actor) ([]byte, string) {
 	switch pick(t, "otherPayload", 14) {
@@ -128,8 +133,15 @@ func otherPayload(t *rapid.T, w *sim.World, sender *sim.Actor) ([]byte, string) 
 	case 7:
 		return attachments.CreateShortAnswerAttachment(junk(t, "answers", 0, 20), rapid.Uint64().Draw(t, "rnd"), 0), "short-att"
 	case 8:
-		b, _ := (&attachments.LongAnswerAttachment{Answers: junk(t, "lanswers", 0, 20), Proof: junk(t, "lproof", 0, 90), Key: junk(t, "lkey", 0, 40), Salt: junk(t, "lsalt", 0, 8)}).ToBytes()
-		return b, "long-att"
+		proof := junk(t, "lproof", 0, 90)
+		label := "long-att"
+		if rapid.Bool().Draw(t, "longVrfConst") && longSeed != nil {
+			var l string
+			proof, l = hostileVrfProof(t, "longProof", vrfCtx{key: sender.Key, msg: longSeed})
+			label += "+" + l
+		}
+		b, _ := (&attachments.LongAnswerAttachment{Answers: junk(t, "lanswers", 0, 20), Proof: proof, Key: junk(t, "lkey", 0, 40), Salt: rapid.SampledFrom([][]byte{nil, {1, 2, 3}}).Draw(t, "lsalt")}).ToBytes()
+		return b, label
 	case 9:
 		args := [][]byte{}
 		for i := pick(t, "nArgs", 5); i > 0; i-- {
@@ -172,6 +184,8 @@ func genHostileTx(t *rapid.T, w *sim.World, r *sim.Replica, inBody []*types.Tran
 	base, info := w.GenTx(t, r, []types.TxType{typ})
 	sender := info.Sender
 	st := r.ReadState()
+	seed := st.State.FlipWordsSeed()
+	longSeed = seed[:]
 	bal := st.State.GetBalance(sender.Addr)
 	tx := &types.Transaction{AccountNonce: base.AccountNonce, Epoch: base.Epoch, Type: base.Type, To: base.To, Amount: base.Amount, MaxFee: base.MaxFee, Tips: base.Tips, Payload: base.Payload}
 	c := &txCase{sender: sender, typ: typ}
@@ -353,6 +367,15 @@ func genHostileTx(t *rapid.T, w *sim.World, r *sim.Replica, inBody []*types.Tran
 	tx = roundTripTx(t, tx)
 	// signature: a real key of the world unless drawn otherwise
 	switch pick(t, "sigClass", 24) {
+	case 5, 6:
+		signed, err := types.SignTx(tx, sender.Key)
+		if err != nil {
+			t.Fatalf("sign: %v", err)
+		}
+		tx = signed
+		var l string
+		tx.Signature, l = hostileEcdsaSig(t, "txSig", tx.Signature, sender.Key)
+		c.labels = append(c.labels, l)
 	case 0:
 		tx.Signature = nil
 		c.labels = append(c.labels, "sig=nil")
@@ -421,6 +444,10 @@ func cloneBlock(t *rapid.T, b *types.Block) *types.Block {
 // headerOps are hostile edits of a proposed header. Each returns a label, or "" when not applicable.
 type headerOp func(t *rapid.T, w *sim.World, prev *types.Header, b *types.Block) string
 
+func seedData(prev *types.Header) []byte {
+	return append(prev.Seed().Bytes(), common.ToBytes(prev.Height()+1)...)
+}
+
 func setProposer(a *sim.Actor, prev *types.Header, ph *types.ProposedHeader) bool {
 	signer, err := p256.NewVRFSigner(a.Key)
 	if err != nil {
@@ -462,7 +489,20 @@ var headerOps = []headerOp{
 	},
 	func(t *rapid.T, w *sim.World, prev *types.Header, b *types.Block) string {
 		ph := b.Header.ProposedHeader
-		switch pick(t, "pubKeyClass", 6) {
+		switch pick(t, "pubKeyClass", 10) {
+		case 6, 7, 8:
+			var l string
+			ph.ProposerPubKey, l = hostilePubKey(t, "proposerPub", ph.ProposerPubKey)
+			return "ProposerPubKey=" + l
+		case 9:
+			// anybody's key (no identity needed to get as far as the seed proof) with a hostile seed proof for that key
+			a := w.Actors[pick(t, "pubActor", len(w.Actors))]
+			if !setProposer(a, prev, ph) {
+				return ""
+			}
+			var l string
+			ph.SeedProof, l = hostileVrfProof(t, "seedProof", vrfCtx{key: a.Key, msg: seedData(prev), honest: ph.SeedProof})
+			return "proposer=other-actor+SeedProof=" + l
 		case 0:
 			ph.ProposerPubKey = nil
 			return "ProposerPubKey=nil"
@@ -491,7 +531,20 @@ var headerOps = []headerOp{
 	},
 	func(t *rapid.T, w *sim.World, prev *types.Header, b *types.Block) string {
 		ph := b.Header.ProposedHeader
-		switch pick(t, "seedProofClass", 4) {
+		switch pick(t, "seedProofClass", 8) {
+		case 4, 5, 6, 7:
+			c := vrfCtx{msg: seedData(prev), honest: ph.SeedProof}
+			if addr, err := crypto.PubKeyBytesToAddress(ph.ProposerPubKey); err == nil {
+				if a := w.ByAddr[addr]; a != nil {
+					c.key = a.Key
+				}
+			}
+			if c.key == nil {
+				c.honest = nil
+			}
+			var l string
+			ph.SeedProof, l = hostileVrfProof(t, "seedProof", c)
+			return "SeedProof=" + l
 		case 0:
 			ph.SeedProof = nil
 			return "SeedProof=nil"
@@ -688,7 +741,9 @@ func signVote(v *types.Vote, a *sim.Actor) {
 }
 
 func hostileSig(t *rapid.T, real []byte, label string) ([]byte, string) {
-	switch pick(t, label, 8) {
+	switch pick(t, label, 11) {
+	case 8, 9, 10:
+		return hostileEcdsaSig(t, label, real, nil)
 	case 0:
 		return nil, "sig=nil"
 	case 1:
